@@ -438,3 +438,58 @@ _reg("import:alias", "import", 0, _mk(_import_alias), False)
 _reg("import:from", "import", 0, _mk(_import_to_from), False)
 _reg("import:module", "import", 0, _mk(_from_to_import), False)
 _reg("import:try", "import", 0, _mk(_visit(_TryImports)), False)
+
+
+# --------------------------------------------------------------------------- import statement layout (several names)
+
+
+def _import_names(style, where):
+    """Every import statement gets extra, unused names (before and after its own, or after only) and is laid out inline,
+    parenthesised one name per line (with comments), or with backslash continuations: partial removal of names from a
+    multi-name import is what import-removing codemods have to survive."""
+
+    class T(cst.CSTTransformer):
+        def __init__(self):
+            self.changed = False
+            self.n = 0
+
+        def leave_SimpleStatementLine(self, original_node, updated_node):
+            if len(updated_node.body) != 1 or not isinstance(updated_node.body[0], (cst.Import, cst.ImportFrom)):
+                return updated_node
+            st = updated_node.body[0]
+            code = cst.Module([]).code_for_node
+            if isinstance(st, cst.ImportFrom):
+                if isinstance(st.names, cst.ImportStar):
+                    return updated_node
+                mod = "." * len(st.relative) + (code(st.module) if st.module is not None else "")
+                if mod == "__future__":
+                    return updated_node
+                head = f"from {mod} import "
+            else:
+                if style.startswith("paren"):
+                    return updated_node  # `import (a, b)` is not Python
+                head = "import "
+            names = [code(al.with_changes(comma=cst.MaybeSentinel.DEFAULT)).strip() for al in st.names]
+            self.n += 1
+            first, last = f"_zz{self.n}a", f"_zz{self.n}z"
+            allnames = ([first] if where == "both" else []) + names + [last]
+            if style == "inline":
+                text = head + ", ".join(allnames)
+            elif style == "paren":
+                text = head + "(\n" + "".join(f"    {n},  # {i}\n" for i, n in enumerate(allnames)) + ")"
+            elif style == "paren-nocomma":
+                text = head + "(\n" + ",\n".join(f"    {n}" for n in allnames) + "\n)"
+            else:
+                text = head + ", \\\n    ".join(allnames)
+            new = cst.parse_statement(text + "\n")
+            self.changed = True
+            return new.with_changes(leading_lines=updated_node.leading_lines, trailing_whitespace=updated_node.trailing_whitespace)
+
+    return T
+
+
+_reg("import:names-inline", "importnames", 0, _mk(_visit(_import_names("inline", "both"))), False)
+_reg("import:names-paren", "importnames", 0, _mk(_visit(_import_names("paren", "both"))), False)
+_reg("import:names-paren-last", "importnames", 0, _mk(_visit(_import_names("paren-nocomma", "last"))), False)
+_reg("import:names-backslash", "importnames", 0, _mk(_visit(_import_names("backslash", "both"))), False)
+_reg("import:names-backslash-last", "importnames", 0, _mk(_visit(_import_names("backslash", "last"))), False)
